@@ -5,6 +5,7 @@ import (
 	"go/ast"
 	"go/constant"
 	"go/token"
+	"go/types"
 	"sort"
 	"strings"
 
@@ -308,6 +309,183 @@ func checkC02(c *Ctx) {
 	} else {
 		r.Unk("C02.convert-meta-guard", "core.WaitAvailableKeys", "-", "anchor not found")
 	}
+
+	checkC02Multibyte(c)
+	checkC02TrimAndQuote(c)
+	checkReturnedLine(c, "C02.returned-line")
+}
+
+var utf8Decoders = []string{"unicode/utf8.FullRune", "unicode/utf8.DecodeRune", "unicode/utf8.FullRuneInString", "unicode/utf8.DecodeRuneInString", "unicode/utf8.DecodeLastRune", "unicode/utf8.RuneLen"}
+
+// checkC02Multibyte: the binds are matched one byte at a time and every bound
+// sequence is made of runes <= 0xff (after ConvertMeta: of bytes < 0x80 and
+// the three bytes of U+FFFD), so the first byte of a UTF-8 encoded character
+// can only ever fail to match. A typed multibyte character therefore reaches
+// the line only if the main dispatcher itself assembles it and hands it to
+// self-insert. Decided structurally: on MatchMain's path some function of the
+// keymap package applies a UTF-8 decoding primitive to the read keys, extends
+// them from the key queue, yields the constant self-insert bind, and asks to
+// wait (prefix == true) when the queue runs dry in mid-character.
+func checkC02Multibyte(c *Ctx) {
+	p, r := c.P, c.R
+	r.Rule("C02.multibyte-dispatch", "K1", "the main dispatcher assembles a multibyte UTF-8 character that matched no bind from the key queue and binds it whole to self-insert (waiting for its last bytes when they are not read yet)", 4)
+	MM := p.Func("keymap.MatchMain")
+	if MM == nil {
+		r.Unk("C02.multibyte-dispatch", "keymap.MatchMain", "-", "anchor not found")
+		return
+	}
+	r.Fn(fnName(MM))
+	// candidate functions: MatchMain and its static callees in package keymap (depth 2)
+	cands := []*ssa.Function{MM}
+	seen := map[*ssa.Function]bool{MM: true}
+	for d := 0; d < 2; d++ {
+		for _, f := range append([]*ssa.Function{}, cands...) {
+			eachInstr(f, func(in ssa.Instruction) {
+				if ci, ok := in.(ssa.CallInstruction); ok {
+					if cal := staticCallee(ci); cal != nil && !seen[cal] && (strings.HasPrefix(fnName(cal), "(*keymap.Engine).") || strings.HasPrefix(fnName(cal), "keymap.")) {
+						seen[cal] = true
+						cands = append(cands, cal)
+					}
+				}
+			})
+		}
+	}
+	var asm *ssa.Function
+	for _, f := range cands {
+		if len(callsTo(f, false, utf8Decoders...)) > 0 {
+			asm = f
+			break
+		}
+	}
+	if asm == nil {
+		r.Bad("C02.multibyte-dispatch", "keymap.MatchMain:assembles", p.Pos(MM.Pos()), "no function on the main dispatch path decodes UTF-8: each byte of a typed multibyte character is matched alone against binds that hold no such byte, and dropped as an undefined key (\"héllo\" is returned as \"hllo\")")
+		return
+	}
+	r.Fn(fnName(asm))
+	r.OK("C02.multibyte-dispatch", "keymap.MatchMain:assembles", p.Pos(asm.Pos()), fnName(asm)+" decodes the read keys")
+	// (b) the constant self-insert bind is produced there (or in MatchMain under it)
+	selfIns := false
+	eachInstr(asm, func(in ssa.Instruction) {
+		if st, ok := in.(*ssa.Store); ok {
+			if s, isS := constString(st.Val); isS && s == "self-insert" {
+				if t, f, ok := fieldOf(st.Addr); ok && t == "inputrc.Bind" && f == "Action" {
+					selfIns = true
+				}
+			}
+		}
+	})
+	r.Check(selfIns, "C02.multibyte-dispatch", fnName(asm)+":self-insert", p.Pos(asm.Pos()), "yields Bind{Action: self-insert}", "the assembled character is not bound to self-insert")
+	// (c) the character is extended from the key queue and the popped bytes join the returned keys
+	pops := callsTo(asm, false, "core.PopKey")
+	peeks := callsTo(asm, false, "core.PeekKey")
+	r.Check(len(pops) > 0 && len(peeks) > 0, "C02.multibyte-dispatch", fnName(asm)+":reads-queue", p.Pos(asm.Pos()), "continuation bytes are peeked and popped from the key queue", "the rest of the character is not taken from the key queue: its continuation bytes are dispatched as keys of their own")
+	// (d) queue empty in mid-character: prefix == true is returned
+	waits := false
+	bf := blockFacts(asm)
+	eachInstr(asm, func(in ssa.Instruction) {
+		ret, ok := in.(*ssa.Return)
+		if !ok || len(ret.Results) < 2 {
+			return
+		}
+		for fc := range factsAt(bf, in) {
+			ex, isE := fc.Cond.(*ssa.Extract)
+			if !isE || !fc.Val || ex.Index != 1 {
+				continue
+			}
+			if cl, isC := ex.Tuple.(*ssa.Call); isC && calleeName(cl) == "core.PeekKey" {
+				if b, isK := constBool(ret.Results[1]); isK && b {
+					waits = true
+				}
+			}
+		}
+	})
+	r.Check(waits, "C02.multibyte-dispatch", fnName(asm)+":waits-for-rest", p.Pos(asm.Pos()), "returns prefix == true when the queue is empty in mid-character", "when the last bytes of a character are not read yet the dispatcher does not wait for them: a character split over two terminal reads is dropped")
+}
+
+// checkC02TrimAndQuote: the two helpers self-insert runs around the insertion
+// must not alter typed text: TrimSuffix removes a rune only for a registered
+// (non-empty) suffix matcher, and what Quote/Unescape make of a single
+// ordinary rune is that rune.
+func checkC02TrimAndQuote(c *Ctx) {
+	p, r := c.P, c.R
+	r.Rule("C02.trim-needs-matcher", "K4", "completion.TrimSuffix (run by every self-insert) removes text only when a suffix matcher was registered (its string is non-empty)", 1)
+	if TS := p.Func("(*completion.Engine).TrimSuffix"); TS != nil {
+		r.Fn(fnName(TS))
+		bf := blockFacts(TS)
+		n := 0
+		for _, call := range callsTo(TS, false, "(*core.Line).CutRune", "(*core.Line).Cut") {
+			ok := false
+			for fc := range factsAt(bf, call) {
+				rel, isR := relOf(fc.Cond, fc.Val)
+				if !isR {
+					continue
+				}
+				isSM := func(v ssa.Value) bool {
+					_, f, ok := fieldRead(v)
+					return ok && f == "string"
+				}
+				if s, isS := constString(rel.Y); isS && s == "" && rel.Op == token.NEQ && isSM(rel.X) {
+					ok = true
+				}
+			}
+			r.Check(ok, "C02.trim-needs-matcher", siteKey(TS, "cut", n), p.IPos(call), "under sm.string != \"\"", "TrimSuffix cuts a rune of the line without having a registered suffix matcher: the zero-value matcher (position 0) is taken for live, and typing a space as the second character deletes the first one")
+			n++
+		}
+		if n == 0 {
+			r.OK("C02.trim-needs-matcher", fnName(TS)+":no-cut", p.Pos(TS.Pos()), "TrimSuffix removes nothing")
+		}
+	} else {
+		r.Unk("C02.trim-needs-matcher", "(*completion.Engine).TrimSuffix", "-", "anchor not found")
+	}
+
+	r.Rule("C02.quote-identity", "K4", "strutil.Quote turns an ordinary rune into itself: either it does not run it through the inputrc escape interpreter, or the interpreter returns a one-rune input unchanged (a typed backslash is not the start of an escape)", 1)
+	Q := p.Func("strutil.Quote")
+	if Q == nil {
+		r.Unk("C02.quote-identity", "strutil.Quote", "-", "anchor not found")
+		return
+	}
+	r.Fn(fnName(Q))
+	if len(callsTo(Q, false, "inputrc.Unescape")) == 0 {
+		r.OK("C02.quote-identity", "strutil.Quote:ordinary-rune", p.Pos(Q.Pos()), "Quote does not interpret the rune")
+		return
+	}
+	UR := p.Func("inputrc.unescapeRunes")
+	if UR == nil || len(UR.Params) == 0 {
+		r.Unk("C02.quote-identity", "inputrc.unescapeRunes", "-", "anchor not found")
+		return
+	}
+	r.Fn(fnName(UR))
+	bf := blockFacts(UR)
+	ok := false
+	eachInstr(UR, func(in ssa.Instruction) {
+		ret, isR := in.(*ssa.Return)
+		if !isR || len(ret.Results) != 1 {
+			return
+		}
+		cv, isC := ret.Results[0].(*ssa.Convert)
+		if !isC || cv.X != ssa.Value(UR.Params[0]) {
+			return
+		}
+		for fc := range factsAt(bf, in) {
+			rel, isRel := relOf(fc.Cond, fc.Val)
+			if !isRel || rel.Op != token.EQL {
+				continue
+			}
+			if k, isK := constInt(rel.Y); isK && k == 1 && isLenOf(rel.X, UR.Params[0]) {
+				ok = true
+			}
+		}
+	})
+	r.Check(ok, "C02.quote-identity", "strutil.Quote:ordinary-rune", p.Pos(UR.Pos()), "Unescape returns a one-rune input unchanged", "Quote runs every typed rune through inputrc.Unescape, and unescapeRunes no longer returns a one-rune input as it is: a typed backslash is decoded as an (empty) escape and inserted as U+0000")
+}
+
+func isLenOf(v ssa.Value, of ssa.Value) bool {
+	cl, ok := v.(*ssa.Call)
+	if !ok {
+		return false
+	}
+	b, ok := cl.Call.Value.(*ssa.Builtin)
+	return ok && b.Name() == "len" && len(cl.Call.Args) == 1 && cl.Call.Args[0] == of
 }
 
 // ---------------------------------------------------------------------------
@@ -402,6 +580,101 @@ func checkC04(c *Ctx) {
 	unitRule(c, "C04.units", []string{"internal/display/*", "core.DisplayLine", "core.CoordinatesLine", "core.CoordinatesCursor", "(*core.Line).newlines", "(*core.Line).Lines",
 		"(*core.Cursor).LinePos", "(*core.Cursor).AtBeginningOfLine", "(*core.Cursor).AtEndOfLine", "(*core.Cursor).moveLineDown", "(*core.Cursor).moveLineUp", "(*core.Cursor).BeginningOfLine", "(*core.Cursor).EndOfLine", "(*core.Cursor).EndOfLineAppend",
 		"strutil.LineSpan", "strutil.RealLength", "internal/ui/*"}, 2)
+
+	// ---- tab width agreement (K5)
+	r.Rule("C04.tab-width", "K5", "the blanks a tab is printed as (FormatTabs) and the blanks it is measured as (RealLength, and any other tab expansion of the module) are the same string", 2)
+	{
+		type site struct {
+			fn  *ssa.Function
+			in  ssa.Instruction
+			rep string
+		}
+		var sites []site
+		for _, f := range p.RepoFuncs {
+			eachInstr(f, func(in ssa.Instruction) {
+				if !isCallTo(in, "strings.ReplaceAll", "strings.Replace") {
+					return
+				}
+				args := in.(ssa.CallInstruction).Common().Args
+				if old, ok := constString(args[1]); ok && old == "\t" {
+					rep, isK := constString(args[2])
+					if !isK {
+						rep = "<not constant>"
+					}
+					sites = append(sites, site{f, in, rep})
+				}
+			})
+		}
+		printed := ""
+		for _, s := range sites {
+			if fnName(s.fn) == "strutil.FormatTabs" {
+				printed = s.rep
+			}
+		}
+		k := map[string]int{}
+		for _, s := range sites {
+			r.Fn(fnName(s.fn))
+			key := fmt.Sprintf("%s:tab-expansion#%d", fnName(s.fn), k[fnName(s.fn)])
+			k[fnName(s.fn)]++
+			r.Check(printed != "" && s.rep == printed, "C04.tab-width", key, p.IPos(s.in), fmt.Sprintf("%d blanks, as printed", len(s.rep)), fmt.Sprintf("a tab is measured as %q here but printed as %q by FormatTabs: every tab before the cursor shifts the computed cursor cell away from the printed text", s.rep, printed))
+		}
+		if printed == "" {
+			r.Unk("C04.tab-width", "strutil.FormatTabs", "-", "the printed tab expansion was not found")
+		}
+	}
+
+	// ---- the row entered by the explicit newline is cleared (K1)
+	r.Rule("C04.clear-after-newline", "K1", "when the line ends exactly on the last column, displayLine clears the row it moves onto: every print of NewlineReturn is followed by a print of ClearLineAfter before returning", 1)
+	if DLN := p.Func("(*display.Engine).displayLine"); DLN != nil {
+		r.Fn(fnName(DLN))
+		tp := p.Pkg("internal/term")
+		cval := func(name string) string {
+			if tp == nil {
+				return ""
+			}
+			if c, ok := tp.Types.Scope().Lookup(name).(*types.Const); ok {
+				return constant.StringVal(c.Val())
+			}
+			return ""
+		}
+		nl, clr, clrBelow := cval("NewlineReturn"), cval("ClearLineAfter"), cval("ClearScreenBelow")
+		prints := func(in ssa.Instruction, want ...string) bool {
+			if !isCallTo(in, "fmt.Print", "fmt.Printf", "fmt.Fprint") {
+				return false
+			}
+			for _, a := range in.(ssa.CallInstruction).Common().Args {
+				leaves := backSlice(a, &SliceOpts{P: p, ElemOf: true})
+				for _, lf := range leaves {
+					if s, ok := constString(lf.V); ok {
+						for _, w := range want {
+							if w != "" && s == w {
+								return true
+							}
+						}
+					}
+				}
+			}
+			return false
+		}
+		if nl == "" || clr == "" {
+			r.Unk("C04.clear-after-newline", fnName(DLN), "-", "term.NewlineReturn / term.ClearLineAfter constants not found")
+		} else {
+			n := 0
+			eachInstr(DLN, func(in ssa.Instruction) {
+				if !prints(in, nl) {
+					return
+				}
+				w := pathAvoiding(DLN, in, isReturn, func(x ssa.Instruction) bool { return prints(x, clr, clrBelow) })
+				r.Check(w == nil, "C04.clear-after-newline", siteKey(DLN, "newline", n), p.IPos(in), "followed by ClearLineAfter on every path", "after moving onto the next row (the line fills the terminal width exactly) the row is not cleared: the tail of a longer, earlier line stays on screen")
+				n++
+			})
+			if n == 0 {
+				r.OK("C04.clear-after-newline", fnName(DLN)+":no-newline", p.Pos(DLN.Pos()), "displayLine prints no explicit newline")
+			}
+		}
+	} else {
+		r.Unk("C04.clear-after-newline", "(*display.Engine).displayLine", "-", "anchor not found")
+	}
 
 	// ---- DisplayLine measures rows in columns (K7, explicit)
 	r.Rule("C04.clear-by-width", "K7", "DisplayLine compares a column measure of the row (not its byte length) with the terminal width when deciding to clear to the end of line", 1)
